@@ -1201,6 +1201,26 @@ in its place (`'\r'` in header strings is outside the domain of the file entry p
 theorem file_cr_counterexample :
     univNl ['#','T','I','T','L','E',':','a','\r','b',';'] = ['#','T','I','T','L','E',':','a','\n','b',';'] := by decide
 
+/-! ### charts without objects -/
+
+/-- **The hypothesis `c.notes ≠ []` of `ChartWritten` is not a restriction of the writer**: for a chart without objects
+(a keyed chart type) `SMMap.write` emits no measure at all … -/
+theorem empty_chart_rows (c : WChart) (h : c.notes = []) (keys : Nat) (hk : getKeys c.chartType = some keys) :
+    writeChartRows c = .ok [] := by
+  unfold writeChartRows
+  have : writeOrder c.notes = [] := by rw [h]; rfl
+  simp [this, beats, bind, Except.bind, hk]
+  rfl
+
+/-- … and the `#NOTES` value written for it (empty note data between two line breaks) denotes no object and is
+well-bracketed.  The whole-file theorem still carries `c.notes ≠ []` inside `ChartWritten` (its note data goes through
+`scanRows_renderRows`, stated for at least one measure): for an empty chart the statement holds by these two facts, but
+the assembly for files that mix empty and non-empty charts is not done. -/
+theorem empty_chart_denote (p0 p1 p2 p3 p4 : Str) :
+    (denoteChart [p0, p1, p2, p3, p4, trim ('\n' :: (renderRows [] ++ ['\n']))]).notes = [] ∧
+    (denoteChart [p0, p1, p2, p3, p4, trim ('\n' :: (renderRows [] ++ ['\n']))]).wellBracketed = true := by
+  constructor <;> rfl
+
 /-!
 what is still missing for the full `write_read_exact` for the single statement "denote (write ms) = ms":
 Proved chain: `written_beats_exact` (slotted beat = `beatAt t`) → `slot_beat_exact` (row denotes that beat) →
